@@ -261,11 +261,14 @@ func processImportValues(c *chart.Chart, merge bool) error {
 					slog.Warn("ImportValues missing table from chart", "chart", r.Name, slog.Any("error", err))
 					continue
 				}
-				// create value map from child to be merged into parent
+				// create value map from child to be merged into parent. The
+				// child table is copied: b is merged into in place, and a
+				// table still shared with cvals could end up inside itself
+				// when another entry imports one of its ancestors below it.
 				if merge {
-					b = MergeTables(b, pathToMap(parent, vv.AsMap()))
+					b = MergeTables(b, pathToMap(parent, deepCopyMap(vv.AsMap())))
 				} else {
-					b = CoalesceTables(b, pathToMap(parent, vv.AsMap()))
+					b = CoalesceTables(b, pathToMap(parent, deepCopyMap(vv.AsMap())))
 				}
 			case string:
 				child := "exports." + iv
@@ -279,9 +282,9 @@ func processImportValues(c *chart.Chart, merge bool) error {
 					continue
 				}
 				if merge {
-					b = MergeTables(b, vm.AsMap())
+					b = MergeTables(b, deepCopyMap(vm.AsMap()))
 				} else {
-					b = CoalesceTables(b, vm.AsMap())
+					b = CoalesceTables(b, deepCopyMap(vm.AsMap()))
 				}
 			}
 		}
